@@ -157,7 +157,11 @@ func (c *Client) ListOffsets(ctx context.Context, req *ListOffsetsRequest) (*Lis
 				partition: int(p.Partition),
 			}
 
-			partition := partitionOffsets[key]
+			partition, ok := partitionOffsets[key]
+			if !ok {
+				// the broker answered for a partition that was not asked for
+				continue
+			}
 
 			switch p.Timestamp {
 			case FirstOffset:
